@@ -186,7 +186,9 @@ def harnesses(tier):
     n = 3 if tier == "thorough" else 2
     k = 0
     seqs = [list(s) for s in itertools.product(NONARC, repeat=n)]
-    chains = ["QS", "CT", "QTS", "CST", "LS", "LT", "QTTS", "CSST", "LzQT", "MLzLL", "mlzql", "QzT", "CzS", "HVhv", "qtz", "csZM", "LLzMLL", "Lz", "Czl"]
+    chains = ["QS", "CT", "QTS", "CST", "LS", "LT", "QTTS", "CSST", "LzQT", "MLzLL", "mlzql", "QzT", "CzS", "HVhv", "qtz", "csZM", "LLzMLL", "Lz", "Czl",
+              # a curve, non-curve segments that may come back to its end point, another curve (S/T must look at the segment just before)
+              "CMC", "QMQ", "CLLC", "QzQ"]
     for lead in "Mm":
         for seq in seqs:
             cmds = [(lead, 1, False)] + [(l, _grp(l, i), False) for i, l in enumerate(seq)]
